@@ -8,7 +8,7 @@ import registry
 
 
 def coverage():
-    rows = ["| id | level | Verus units (functions under contract) | Kani harnesses | native replays |", "|---|---|---|---|---|"]
+    rows = ["| id | level | Verus units (functions under contract) | Kani harnesses | native replays | native search (bounded exploration) |", "|---|---|---|---|---|---|"]
     for pid, P in sorted(registry.PROPS.items()):
         try:
             ev = json.load(open(os.path.join(VERIF, "evidence", pid + ".json")))
@@ -31,7 +31,16 @@ def coverage():
         if inc:
             k.append("in-crate: " + ", ".join(inc))
         rp = ", ".join((r.get("finding") or r["bin"]) + ("*" if r.get("expect") == "fail" else "") for r in P.get("replays", [])) or "—"
-        rows.append(f"| {pid} | {P['level']} | {units} | {', '.join(k) or '—'} | {rp} |")
+        inr = [t for t in P.get("incrate_native", [])]
+        rp2 = [((t.get("finding") or t["test"].split("::")[-1]) + " (in-crate)") for t in inr if t.get("kind") != "search"]
+        if rp2:
+            rp = (rp + ", " if rp != "—" else "") + ", ".join(rp2)
+        se = []
+        if P.get("vx_search"):
+            se.append("`" + P["vx_search"]["bin"] + "`")
+        se += ["`" + t["test"].split("::")[-1] + "` (in-crate)" for t in inr if t.get("kind") == "search"]
+        level = P["level"] + (" (partial)" if P.get("level_prefix") else "")
+        rows.append(f"| {pid} | {level} | {units} | {', '.join(k) or '—'} | {rp} | {', '.join(se) or '—'} |")
     rows.append("")
     rows.append("(`*` = open known finding, expected to fail.) Functions per unit, by name, are in `evidence/<id>.json → coverage.functions_under_contract`.")
     return "\n".join(rows)
@@ -47,7 +56,7 @@ def seeded():
                 res.setdefault(c[0], []).append(c[1:])
     rows = ["| seed | change | check (tier) | verdict | failing obligations / harnesses | counterexample |", "|---|---|---|---|---|---|"]
     sd = os.path.join(VERIF, "seeded")
-    for sid in sorted(d for d in os.listdir(sd) if re.match(r"C\d\d-\d+$", d)):
+    for sid in sorted((d for d in os.listdir(sd) if re.match(r"C\d\d-\d+$", d)), key=lambda d: (d.split("-")[0], int(d.split("-")[1]))):
         m = json.load(open(os.path.join(sd, sid, "meta.json")))
         what = re.sub(r"\s+", " ", m.get("what", "")).replace("|", "\\|")
         if len(what) > 170:
